@@ -125,6 +125,18 @@ func (node *Node) processUnconfirmedTx(ctx context.Context, tx handlers.TxData) 
 			return errors.Wrap(err, "fetch outputs")
 		}
 	} else {
+		if txState.State.MerkleProof != nil &&
+			node.blocks.Contains(txState.State.MerkleProof.BlockHeader.BlockHash()) {
+			// The tx is already confirmed in a block of the current chain and was delivered with
+			// it. This is a late announcement, not a new unconfirmed tx.
+			logger.Info(ctx, "Tx already confirmed : %s", hash)
+			if _, err := node.txs.Remove(ctx, *hash, -1); err != nil {
+				return errors.Wrap(err, "Failed to remove from tx repo")
+			}
+			node.memPool.RemoveTransaction(*hash)
+			return nil
+		}
+
 		logger.Info(ctx, "Updating tx state : %s", hash)
 	}
 
